@@ -210,7 +210,9 @@ func (r *generateReader) ReadByte() (byte, error) {
 			if errMsg != "" {
 				return 0, r.parseError(errMsg, si+3+sep)
 			}
-			if r.start+offset < 0 || r.end+offset > 1<<31-1 {
+			// start and end are not negative, so neither side can overflow
+			// (start+offset and end+offset can).
+			if offset < -r.start || offset > 1<<31-1-r.end {
 				return 0, r.parseError("bad offset in $GENERATE", si+3+sep)
 			}
 
